@@ -2,6 +2,7 @@
 import re
 from lm.db import short
 from lm import tables, expr as X
+from lm.match import norm
 
 
 def typenum(s):
@@ -140,3 +141,126 @@ def promoted_expr(db, uneval, idx):
         return None
     bi, si, x = d[0]
     return R.call(x) if si == 'term' else R.rvalue(x)
+
+
+def is_usize_const(e):
+    """Exactly the typenum constant `<N as Unsigned>::USIZE` (not an expression that merely mentions it, such as K - 1)."""
+    e = norm(e)
+    return e[0] == 'kc' and e[1].endswith('Unsigned::USIZE')
+
+
+def is_call_to(e, *suffixes):
+    """Exactly a call whose callee path ends with one of the suffixes (after stripping refs / casts / identity conversions)."""
+    e = norm(e)
+    return e[0] == 'call' and e[1].endswith(tuple(suffixes))
+
+
+def is_len_of(e, who=None):
+    """Exactly the length of a slice / vector / sequence: ('len', x) (PtrMetadata) or a call to `…::len(x)`; optionally of a given x."""
+    e = norm(e)
+    if e[0] == 'len':
+        return who is None or norm(e[1]) == who
+    if e[0] == 'call' and e[1].endswith('::len') and len(e[2]) == 1:
+        return who is None or norm(e[2][0]) == who
+    return False
+
+
+def is_product_of_calls(e, suffixes):
+    """Exactly a product whose factors are calls ending with the given suffixes (each used once, any order)."""
+    e = norm(e)
+
+    def factors(x):
+        if x[0] == 'bin' and x[1] in ('Mul', 'MulUnchecked'):
+            return factors(x[2]) + factors(x[3])
+        return [x]
+    fs = factors(e)
+    if len(fs) != len(suffixes):
+        return False
+    left = list(suffixes)
+    for x in fs:
+        hit = [s for s in left if x[0] == 'call' and x[1].endswith(s)]
+        if not hit:
+            return False
+        left.remove(hit[0])
+    return not left
+
+
+def is_call_on(e, suffix, recv):
+    """Exactly `<…suffix>(recv)` where recv is compared canonically (refs/casts transparent)."""
+    e = norm(e)
+    return e[0] == 'call' and e[1].endswith(suffix) and len(e[2]) >= 1 and X.canon(e[2][0]) == X.canon(recv)
+
+
+def _lin_LM(e, is_L, is_M):
+    """Linear form of e over the two atoms L (sequence length) and M (matrix rows): (cL, cM, c0) or None if anything else occurs."""
+    l = X.lin(norm(e))
+    cL = cM = 0
+    c0 = l.get('', 0)
+    for k, v in l.items():
+        if k == '':
+            continue
+        if is_L(k):
+            cL += v
+        elif is_M(k):
+            cM += v
+        else:
+            return None
+    return cL, cM, c0
+
+
+_IS_L = re.compile(r'lightmotif::seq::StripedSequence(::<[^()]*>)?::len\((arg\d+|_\d+)\)$')
+_IS_M = re.compile(r'lightmotif::(dense::DenseMatrix|pwm::ScoringMatrix|pwm::DiscreteMatrix)(::<[^()]*>)?::rows\((arg\d+|_\d+)\)$')
+
+
+def length_guard_strength(rels, is_L=lambda k: _IS_L.match(k) is not None, is_M=lambda k: _IS_M.match(k) is not None):
+    """Among dominating relations find one that bounds L (sequence length) from below by M (matrix rows).
+    Returns ('exact', r) when it is equivalent to L >= M, ('stronger', r) when it implies L >= M but also excludes L == M (or more),
+    or (None, None).  Recognised: a REL b with both sides linear in L and M (any arrangement / constant), and
+    saturating_sub(x, y) != 0 / > 0 (equivalent to x > y)."""
+    best = (None, None)
+    for r in rels:
+        rel = r[0]
+        if rel not in ('ge', 'gt', 'le', 'lt', 'ne', 'eq'):
+            continue
+        a, b = norm(r[1]), norm(r[2])
+        # saturating_sub(x, y) != 0  /  > 0   <=>  x > y
+        for s_, o in ((a, b), (b, a)):
+            if s_[0] == 'call' and s_[1].endswith('saturating_sub') and len(s_[2]) == 2 and o == ('k', 0):
+                if rel == 'ne' or (rel == 'gt' and s_ is a) or (rel == 'lt' and s_ is b):
+                    a, b, rel = s_[2][0], s_[2][1], 'gt'
+                    break
+        if rel in ('le', 'lt'):
+            a, b = b, a
+            rel = {'le': 'ge', 'lt': 'gt'}[rel]
+        if rel not in ('ge', 'gt'):
+            continue
+        la, lb = _lin_LM(a, is_L, is_M), _lin_LM(b, is_L, is_M)
+        if la is None or lb is None:
+            continue
+        cL, cM, c0 = la[0] - lb[0], la[1] - lb[1], la[2] - lb[2]
+        if (cL, cM) != (1, -1):
+            continue
+        # L - M + c0 >= 0 (ge)  or  > 0 (gt)   <=>   L >= M - c0   or   L >= M - c0 + 1
+        low = -c0 if rel == 'ge' else -c0 + 1        # L >= M + low
+        if low == 0:
+            return ('exact', r)
+        if low > 0 and best[0] is None:
+            best = ('stronger', r)
+    return best
+
+
+def shared_rule(db, ctx, fn, new_id, text, old_ids):
+    """Run a rule function of another property module under this property's own rule id (obligations, violations, floors relabelled)."""
+    before, vb = len(ctx.obligations), len(ctx.violations)
+    fn(db, ctx)
+    for o in ctx.obligations[before:]:
+        o['rule'] = new_id
+    for v in ctx.violations[vb:]:
+        v['key'] = v['key'].replace(v['rule'], new_id)
+        v['why'] = v['why'].replace('rule ' + v['rule'], 'rule ' + new_id)
+        v['rule'] = new_id
+    ctx.rules_text[new_id] = text
+    for k in old_ids:
+        ctx.rules_text.pop(k, None)
+        if k in ctx.floors:
+            ctx.floors[new_id + '-' + k] = ctx.floors.pop(k)
